@@ -3,17 +3,17 @@
 import json
 props=[json.loads(l) for l in open('/verif/properties.jsonl')]
 scenes={
- "C01":"end-of-block batch start and batch expiry, respond, withdraw, context update, zero-height preparation: escrow balance delta = delta of (pending fees + earnings) at every step",
- "C02":"batch start (debit = sum of fees issued), respond (tax = floor(fee x rate), earnings = fee - tax, or whole fee back on malformed output), expiry (whole fee back), marker removed so no second settlement",
- "C03":"bind / update / enable / disable / refund through the handler, slash at expiry and on malformed output: deposit account delta = delta of recorded deposits, owner debited the same, refund iff unavailable, non-zero and due (block time symbolic around the refundable instant), burn lowers supply",
+ "C01":"end-of-block batch start and batch expiry, respond, withdraw, context update, zero-height preparation: escrow balance delta = delta of (pending fees + earnings) at every step; batch start with a price in a second token (host token keeper + oracle module service: concrete rates, error answers, no oracle)",
+ "C02":"batch start (debit = sum of fees issued), respond (tax = floor(fee x rate), earnings = fee - tax, or whole fee back on malformed output), expiry (whole fee back), marker removed so no second settlement; batch start with a price in a second token (host token keeper + oracle module service: concrete rates, error answers, no oracle)",
+ "C03":"bind / update / enable / disable / refund through the handler, slash at expiry and on malformed output: deposit account delta = delta of recorded deposits, owner debited the same, refund iff unavailable, non-zero and due (block time symbolic around the refundable instant), burn lowers supply; zero-height preparation leaves deposits in custody",
  "C04":"slash contract at both call sites (amount = floor(deposit x fraction), burn, auto-disable with block time), and no deposit change on any other path",
  "C05":"every message type with the signer symbolic and unequal to the rightful party; module-owned contexts; balances of non-signers",
- "C06":"batch start with <=2 listed providers each bound/unbound, available or not, any QoS, price and cap, any threshold and consumer balance: requests = exactly the eligible set, skip / pause decisions, fee <= cap",
- "C07":"discount selectors against a reference scanning the other way (all block times and volumes relative to windows / thresholds), fee = max(1, trunc(base x dT x dV)) <= max(base,1), recorded fee and debit = reference price, volume +1 per accepted response",
+ "C06":"batch start with <=2 listed providers each bound/unbound, available or not, any QoS, price and cap, any threshold and consumer balance: requests = exactly the eligible set, skip / pause decisions, fee <= cap; batch start with a price in a second token (host token keeper + oracle module service: concrete rates, error answers, no oracle)",
+ "C07":"discount selectors against a reference scanning the other way (all block times and volumes relative to windows / thresholds), fee = max(1, trunc(base x dT x dV)) <= max(base,1), recorded fee and debit = reference price, volume +1 per accepted response; batch start with a price in a second token (host token keeper + oracle module service: concrete rates, error answers, no oracle)",
  "C08":"respond accepted iff known request, designated provider, still pending (any context state); expiry height fixed at issue; nothing pending after the expiry block; context messages leave requests alone",
  "C09":"pause / start / kill / update / call / batch start / expiry / respond: guards of each transition, immutable fields, counter moves only at issue or skip and only when running, completed is final",
  "C10":"first batch queued at the call height; next batch at expiry - timeout + frequency >= expiry; counter against the largest total ever in force (ghost), one-shot single batch; start and update preserve it",
- "C11":"queue invariant (exactly one pending event for a running context, none in the past, pointer and queue entry agree) after every message and both end-of-block handlers",
+ "C11":"queue invariant (exactly one pending event for a running context, none in the past, pointer and queue entry agree) after every message and both end-of-block handlers; batch start with a price in a second token (host token keeper + oracle module service: concrete rates, error answers, no oracle)",
  "C12":"request / response counts, completion exactly when all answered or at expiry, callbacks of another module: once per batch, outputs = non-empty outputs, error iff below threshold, state callback on pause for funds",
  "C13":"withdraw by owner / by provider / by a stranger with two owners and three providers, withdrawal address set or not: payout, reset records, owner total = sum of its providers; earn on respond; set-withdraw-address",
  "C14":"available => deposit >= max(min-deposit param, price x multiple) after bind / update (price or deposit) / enable / disable / refund / slash; rejections",
@@ -22,7 +22,7 @@ scenes={
  "C17":"all 13 gRPC queries and their legacy (amino JSON) counterparts against the records installed, with existing and fresh arguments; request reconstruction field by field",
  "C18":"ID codecs: fixed length, round trip, injectivity for all 64/16-bit values and 40/32-byte hashes; key builders injective and every prefix scan exact (names of length 1-2 incl. prefixes of each other, 20-byte addresses; other address lengths = known finding F6); IDs assigned at issue and at call",
  "C19":"zero-height preparation (refund of pending fees and earnings, escrow emptied, contexts paused), ValidateGenesis(Export) = nil, Init into a fresh chain and Export again equal, pricing and ownership indexes rebuilt; enum JSON forms round trip",
- "C20":"no panic in EndBlocker (batch start, expiry with slashing) and in the handler for every message accepted by ValidateBasic (all 14 types, incl. empty deposit lists); determinism by self-composition of EndBlocker with independent map iteration orders",
+ "C20":"no panic in EndBlocker (batch start, expiry with slashing) and in the handler for every message accepted by ValidateBasic (all 14 types, incl. empty deposit lists); determinism by self-composition of EndBlocker with independent map iteration orders; SDK 255/315-bit range checks modelled for amounts a message can carry (incl. decimal price texts of any length); module-service calls",
 }
 checks=[]
 for p in props:
@@ -37,7 +37,7 @@ for p in props:
      "technique":"bounded symbolic execution of the real Go code (go/ssa -> SMT, z3 with z3-5.1/cvc5 fallback), one-step induction from symbolic invariant-satisfying states; counterexamples and witnesses replayed natively",
      "level_claimed":{"category":"model_checking",
         "text":"Every assertion of the harnesses holds for every value of the symbolic inputs within the stated bounds (solver verdict unsat on each obligation of each feasible path; unknown/timeout/unwinding limits are reported as inconclusive, never as success). Covered: "+scenes[i]+". Not a proof: bounded record counts and list lengths, stub contracts at the SDK boundary.",
-        "design_ref":"DESIGN.md sections 3-7 and 14"},
+        "design_ref":"DESIGN.md sections 3-7, 14, 16, 18, 19"},
      "level_note":"trusted base: the symgo encoder, the stub contracts of DESIGN.md section 4 (KV store, codec round trip, bank, params, sdk.Int/Dec as exact integers, bech32 as an injective NUL-free encoding, time as integer nanoseconds, pricing JSON as a structured value), z3 4.8.12 / z3 5.1.0 / cvc5; kept honest by native replay of a witness path of every harness and of every counterexample against simapp + the real keeper, store, codec and bank. State builders generate the invariant-satisfying pre-states of DESIGN.md section 5 within the bounds of section 6/14.",
     })
 m={"version":1,
@@ -45,7 +45,7 @@ m={"version":1,
  "hooks":{"guard":"verif","enable":"no hooks: harnesses live in /verif/harness (own Go module with replace github.com/irismod/service => /repo); /repo is loaded from its working tree by go/packages on every run, nothing in /repo is built with a tag","baseline_off_cmd":"cd /repo && go test -vet=off -count=1 ./...","source_commits":[],"add_only":True},
  "engines":[{"name":"symgo","path":"/verif/symgo","serves_properties":[p['id'] for p in props],"kind_free_text":"bounded symbolic executor for go/ssa of the real module code -> SMT-LIB2 (z3 4.8.12 primary; z3 5.1.0 and cvc5 as fallback on unknown), path exploration by re-execution with decision prefixes on 16 workers, native replay of counterexamples and witnesses"}],
  "checks":checks,
- "notes":"Genuine defects found and repaired with fix: commits in /repo (F1-F5, F7, F8) and one recorded as known finding (F6) are listed in /verif/known_findings.json and DESIGN.md section 8. Exit codes: 0 held, 1 VIOLATION (reproduced natively), 2 inconclusive (never success).",
+ "notes":"Genuine defects found and repaired with fix: commits in /repo (F1-F5, F7-F16) and one recorded as known finding (F6) are listed in /verif/known_findings.json and DESIGN.md sections 8, 16, 18, 19. Exit codes: 0 held, 1 VIOLATION (reproduced natively), 2 inconclusive (never success).",
  "not_applicable":[]}
 json.dump(m,open('/verif/MANIFEST.json','w'),indent=1)
 print("ok",len(checks))
